@@ -9,6 +9,7 @@ import (
 	"os"
 	"path"
 	"path/filepath"
+	"sort"
 	"strings"
 	"sync"
 
@@ -183,6 +184,10 @@ func (db *MultiBucketBackend) getBucketWithFilePrefixLocked(bucket string, prefi
 		}
 	}
 
+	sort.Slice(response.CommonPrefixes, func(i, j int) bool {
+		return response.CommonPrefixes[i].Prefix < response.CommonPrefixes[j].Prefix
+	})
+
 	return response, nil
 }
 
@@ -233,6 +238,12 @@ func (db *MultiBucketBackend) getBucketWithArbitraryPrefixLocked(bucket string, 
 	}); err != nil {
 		return nil, err
 	}
+
+	// Walk visits a directory's contents before its later siblings ("a/b"
+	// before "a-b"); S3 lists keys in byte order of the whole key.
+	sort.Slice(response.Contents, func(i, j int) bool {
+		return response.Contents[i].Key < response.Contents[j].Key
+	})
 
 	return response, nil
 }
